@@ -12,7 +12,7 @@ from pyvc import contracts as C
 from pyvc import builtins_model as bm
 from pyvc.builtins_model import IdToken
 from pyvc.interp import BuiltinFn, SymRaise
-from pyvc.values import PDict, PExc, PList, PObj, SV, compare, sv_and, sv_ite, sv_not, tobool
+from pyvc.values import PDict, PExc, PList, PObj, SV, compare, is_scalar, sv_and, sv_ite, sv_not, tobool
 
 from .common import repo_class
 from .distributions import identity_map
@@ -216,6 +216,7 @@ def register_memoisation(reg):
             setup=setup_one,
             post=post_one,
             inline=["Samplable.sample"] + DICT_INLINE,
+            replay=replay_sample_one,
             bounded=True,
             note="bounded: chain n2 -> (n1, n0), n1 -> n0 with 4 states of the given map",
             properties=("C01",),
@@ -308,7 +309,7 @@ def register_init(reg):
         params = dict(self=C.Obj(target.rsplit(".", 1)[0]), dependencies=C.Const(None))
         if is_dist:
             params["valueType"] = C.Const(None)
-        reg.add(C.Contract(target, params=params, setup=setup, post=post, inline=["Samplable.__init__", "LazilyEvaluable.__init__"], properties=("C01",)), key=f"{target}[dependencies]")
+        reg.add(C.Contract(target, params=params, setup=setup, post=post, inline=["Samplable.__init__", "LazilyEvaluable.__init__"], replay=make_replay_init(is_dist), properties=("C01",)), key=f"{target}[dependencies]")
 
     make(f"{D}:Samplable.__init__", "distributions.Samplable.__init__", False)
     make(f"{D}:Distribution.__init__", "distributions.Distribution.__init__", True)
@@ -561,6 +562,46 @@ def replay_generate_inner(inputs, clause):
         want = (u0 <= p0, u1 <= p1)
         if results[0][1] != want:
             return f"soft requirements active = {results[0][1]}, but the activation draws {u0:.4f}, {u1:.4f} against probabilities {p0}, {p1} give {want}"
+    # activation draws that hit the probabilities exactly: `u <= p` enforces the requirement
+    if 0 <= p0 < 1 and 0 <= p1 < 1:
+        sc = scenic.scenarioFromString(src, mode2D=False)
+        script = [p0, p1]
+        orig = random.random
+        random.random = lambda: script.pop(0) if script else orig()
+        try:
+            sc._generateInner(3, 0, None)
+        finally:
+            random.random = orig
+        acts = tuple(r.active for r in sc.userRequirements)
+        if acts != (True, True):
+            return f"activation draws equal to the probabilities ({p0}, {p1}) gave active = {acts}; `require[p]` is enforced when the draw is <= p"
+    # a sampling-time rejection is an attempt like any other
+    import scenic.core.scenarios as scen
+
+    sc = scenic.scenarioFromString(src, mode2D=False)
+    real = scen.Samplable.sampleAll
+    state = {"n": 0}
+
+    def scripted(quantities):
+        state["n"] += 1
+        if state["n"] == 1:
+            raise RejectionException("scripted sampling rejection")
+        return real(quantities)
+
+    scen.Samplable.sampleAll = staticmethod(scripted)
+    try:
+        for budget in (1, 2):
+            state["n"] = 0
+            try:
+                scene, its = sc._generateInner(budget, 0, None)
+                got = ("scene", its)
+            except RejectionException:
+                got = ("rejected", state["n"])
+            want = ("rejected", 1) if budget == 1 else ("scene", 2)
+            if got != want:
+                return f"with the first sampling attempt rejected, _generateInner({budget}) gave {got}, expected {want}"
+    finally:
+        scen.Samplable.sampleAll = staticmethod(real)
     return None
 
 
@@ -596,6 +637,9 @@ def register_sites(reg):
             eng.check(f"{name}#rng.exactly_one_{prim}_draw", ok)
             if ok:
                 a, b = tr[0][1][0], tr[0][1][1]
+                if not (is_scalar(a) and is_scalar(b)):
+                    eng.check(f"{name}#rng.{prim}_arguments_are_the_sampled_parameters_in_order", False, detail=f"{prim} called with unsampled parameter objects {a!r}, {b!r}")
+                    return
                 eng.check(f"{name}#rng.{prim}_arguments_are_the_sampled_parameters_in_order", sv_and(compare("==", a, env.vars["_a"]), compare("==", b, env.vars["_b"])))
                 eng.check(f"{name}#ensures.result_is_the_draw", compare("==", outcome[1], tr[0][2]))
 
@@ -634,7 +678,7 @@ def register_sites(reg):
             got = res.fields["_ctor"].get("opts")
             eng.check(f"{name}#ensures.all_options_passed_on_in_order", isinstance(got, tuple) and len(got) == len(opts) and all(a is b for a, b in zip(got, opts)))
 
-    reg.add(C.Contract(f"{D}:Uniform", params=dict(opts=C.Const(None)), setup=setup_uniform, post=post_uniform, bounded=True, note="0 to 3 options", properties=("C01",)))
+    reg.add(C.Contract(f"{D}:Uniform", params=dict(opts=C.Const(None)), setup=setup_uniform, post=post_uniform, replay=replay_uniform, bounded=True, note="0 to 3 options", properties=("C01",)))
 
     # ---------------------------------------------------------------- UniformDistribution.__init__ / sampleGiven
     def setup_ud_init(I, env):
@@ -681,7 +725,7 @@ def register_sites(reg):
         deps = f.get("_dependencies")
         eng.check(f"{name}#ensures.selector_is_a_dependency", isinstance(deps, tuple) and any(d is sel for d in deps))
 
-    reg.add(C.Contract(f"{D}:UniformDistribution.__init__", params=dict(self=C.Obj(f"{D}:UniformDistribution"), opts=C.Const(None)), setup=setup_ud_init, post=post_ud_init, bounded=True, note="3 options, each plain or starred with a symbolic length (lifted len/+ treated as arithmetic: C05)", properties=("C01",)))
+    reg.add(C.Contract(f"{D}:UniformDistribution.__init__", params=dict(self=C.Obj(f"{D}:UniformDistribution"), opts=C.Const(None)), setup=setup_ud_init, post=post_ud_init, replay=replay_ud, bounded=True, note="3 options, each plain or starred with a symbolic length (lifted len/+ treated as arithmetic: C05)", properties=("C01",)))
 
     def setup_ud(I, env):
         eng = I.eng
@@ -710,53 +754,48 @@ def register_sites(reg):
         eng.check(f"{name}#ensures.result_is_the_selected_element_of_the_spliced_options", len(hit) == 1 and compare("==", idx, hit[0]))
         eng.check(f"{name}#rng.no_draw", len(eng.rng_trace) == 0)
 
-    reg.add(C.Contract(f"{D}:UniformDistribution.sampleGiven", params=dict(self=C.Obj(f"{D}:UniformDistribution"), value=C.Const(None)), setup=setup_ud, post=post_ud, assert_mode="prove", inline=["DefaultIdentityDict.__getitem__"], bounded=True, note="options (plain, starred of sampled length 0-2, plain)", properties=("C01",)))
+    reg.add(C.Contract(f"{D}:UniformDistribution.sampleGiven", params=dict(self=C.Obj(f"{D}:UniformDistribution"), value=C.Const(None)), setup=setup_ud, post=post_ud, assert_mode="prove", inline=["DefaultIdentityDict.__getitem__"], replay=replay_ud, bounded=True, note="options (plain, starred of sampled length 0-2, plain)", properties=("C01",)))
+
+
+def _replay_two_param_site(cls_name, prim, pa, pb, a, b):
+    """Real node with constant and with random parameters; the primitive is intercepted."""
+    import random
+
+    import scenic.core.distributions as d
+    from scenic.core.utils import DefaultIdentityDict
+
+    cls = getattr(d, cls_name)
+    for random_params in (False, True):
+        m = DefaultIdentityDict()
+        if random_params:
+            ka, kb = d.Range(0, 1), d.Range(0, 1)
+            m[ka], m[kb] = a, b
+            node = cls(ka, kb)
+        else:
+            node = cls(a, b)
+        calls = []
+        orig = getattr(random, prim)
+        setattr(random, prim, lambda x, y: (calls.append((x, y)), orig(x, y))[1])
+        try:
+            random.seed(3)
+            v = node.sampleGiven(m)
+            random.seed(3)
+            w = orig(a, b)
+        finally:
+            setattr(random, prim, orig)
+        ok = len(calls) == 1 and all(isinstance(x, (int, float)) for x in calls[0]) and calls[0] == (a, b) and v == w
+        if not ok:
+            kind = "random parameters sampled as" if random_params else "constant parameters"
+            return f"{cls_name}.sampleGiven with {kind} {pa}={a}, {pb}={b} drew {prim}{calls!r} and returned {v!r}; expected exactly one {prim}({a}, {b}) = {w}"
+    return None
 
 
 def replay_range_sample(inputs, clause):
-    import random
-
-    from scenic.core.distributions import Range
-    from scenic.core.utils import DefaultIdentityDict
-
-    lo, hi = float(inputs.get("low", 0)), float(inputs.get("high", 1))
-    r = Range(lo, hi)
-    calls = []
-    orig = random.uniform
-    random.uniform = lambda a, b: (calls.append((a, b)), orig(a, b))[1]
-    try:
-        random.seed(3)
-        v = r.sampleGiven(DefaultIdentityDict())
-        random.seed(3)
-        w = orig(lo, hi)
-    finally:
-        random.uniform = orig
-    if calls != [(lo, hi)] or v != w:
-        return f"Range({lo}, {hi}).sampleGiven drew {calls!r} and returned {v}; expected one uniform({lo}, {hi}) = {w}"
-    return None
+    return _replay_two_param_site("Range", "uniform", "low", "high", float(inputs.get("low", 0)), float(inputs.get("high", 1)))
 
 
 def replay_normal_sample(inputs, clause):
-    import random
-
-    from scenic.core.distributions import Normal
-    from scenic.core.utils import DefaultIdentityDict
-
-    mu, sd = float(inputs.get("mean", 0)), float(inputs.get("stddev", 1))
-    d = Normal(mu, sd)
-    calls = []
-    orig = random.gauss
-    random.gauss = lambda a, b: (calls.append((a, b)), orig(a, b))[1]
-    try:
-        random.seed(3)
-        v = d.sampleGiven(DefaultIdentityDict())
-        random.seed(3)
-        w = orig(mu, sd)
-    finally:
-        random.gauss = orig
-    if calls != [(mu, sd)] or v != w:
-        return f"Normal({mu}, {sd}).sampleGiven drew {calls!r} and returned {v}; expected one gauss({mu}, {sd}) = {w}"
-    return None
+    return _replay_two_param_site("Normal", "gauss", "mean", "stddev", float(inputs.get("mean", 0)), float(inputs.get("stddev", 1)))
 
 
 # ------------------------------------------------------------------------------------------------
@@ -792,7 +831,7 @@ def register_clone(reg):
                 got = res.fields["_ctor"]
                 eng.check(f"{name}#ensures.over_the_very_same_parameter_objects", all(got.get(k) is val for k, val in want.items()))
 
-        reg.add(C.Contract(f"{D}:{cn}.clone", params=dict(self=C.Obj(f"{D}:{cn}")), setup=setup, post=post, properties=("C01",)))
+        reg.add(C.Contract(f"{D}:{cn}.clone", params=dict(self=C.Obj(f"{D}:{cn}")), setup=setup, post=post, replay=make_replay_clone(cn), properties=("C01",)))
 
     for cn in CLONES:
         make(cn)
@@ -817,7 +856,7 @@ def register_clone(reg):
             want = env.vars["_table"] if env.vars["_table"] is not None else env.vars["_opts"]
             eng.check(f"{name}#ensures.over_the_same_options_and_weights", res.fields["_ctor"].get("opts") is want)
 
-    reg.add(C.Contract(f"{D}:Options.clone", params=dict(self=C.Obj(f"{D}:Options")), setup=setup_oc, post=post_oc, properties=("C01",)))
+    reg.add(C.Contract(f"{D}:Options.clone", params=dict(self=C.Obj(f"{D}:Options")), setup=setup_oc, post=post_oc, replay=make_replay_clone("Options"), properties=("C01",)))
 
     # veneer.resample
     def setup_rs(I, env):
@@ -852,4 +891,170 @@ def register_clone(reg):
         else:
             eng.check(f"{name}#raises.TypeError_for_non_primitive_distributions", outcome[0] == "raise" and exc_name(outcome[1]) == "TypeError")
 
-    reg.add(C.Contract(f"{V}:resample", params=dict(dist=C.Const(None)), setup=setup_rs, post=post_rs, raises=[C.Raises("TypeError", mode="may")], properties=("C01",)))
+    reg.add(C.Contract(f"{V}:resample", params=dict(dist=C.Const(None)), setup=setup_rs, post=post_rs, raises=[C.Raises("TypeError", mode="may")], replay=replay_resample, properties=("C01",)))
+
+
+# ------------------------------------------------------------------------------------------------
+# further replay drivers (real objects, scripted draws)
+
+
+def replay_sample_one(inputs, clause):
+    from scenic.core.distributions import Samplable
+    from scenic.core.utils import DefaultIdentityDict
+
+    counts = {}
+
+    class Node(Samplable):
+        def __init__(self, tag, deps):
+            super().__init__(deps)
+            self.tag = tag
+            self._needsSampling = self._isLazy = True
+
+        def sampleGiven(self, value):
+            counts[self.tag] = counts.get(self.tag, 0) + 1
+            return ("v", self.tag, tuple(value[d] for d in self._dependencies))
+
+    for form in range(4):
+        counts.clear()
+        n0 = Node("n0", [])
+        n1 = Node("n1", [n0])
+        n2 = Node("n2", [n1, n0])
+        pre = [[], [], [n0], [n1, n0]][form]
+        m = None if form == 0 else DefaultIdentityDict()
+        for n in pre:
+            m[n] = ("given", n.tag)
+        res = n2.sample(m)
+        for n in (n0, n1):
+            want = 0 if (n in pre or (n is n0 and n1 in pre)) else 1
+            if counts.get(n.tag, 0) != want:
+                return f"sample() with {[x.tag for x in pre]} already in the map drew {n.tag} {counts.get(n.tag, 0)} times (expected {want})"
+        if counts.get("n2", 0) != 1:
+            return f"n2 drawn {counts.get('n2', 0)} times"
+    return None
+
+
+def make_replay_init(is_dist):
+    def replay(inputs, clause):
+        from scenic.core.distributions import Distribution, Samplable
+        from scenic.core.lazy_eval import DelayedArgument
+
+        A = DelayedArgument(("p",), lambda c: 1, _internal=True)
+        B = DelayedArgument(("q", "p"), lambda c: 2, _internal=True)
+        for args in ([A, 3, B, object()], [3, B, A], [object(), 4], [B]):
+            if is_dist:
+
+                class Dist(Distribution):
+                    def __init__(self, *a):
+                        super().__init__(*a)
+
+                node = Dist(*args)
+            else:
+                node = Samplable(args)
+            want = [a for a in args if isinstance(a, DelayedArgument)]
+            got = list(node._dependencies)
+            if len(got) != len(want) or any(g is not w for g, w in zip(got, want)):
+                return f"dependencies of a node built from {len(args)} arguments: {len(got)} recorded (lazy ones: {len(want)}), order preserved: {all(g is w for g, w in zip(got, want))}"
+        return None
+
+    return replay
+
+
+def replay_uniform(inputs, clause):
+    from scenic.core.distributions import Options, Range, StarredDistribution, TupleDistribution, Uniform, UniformDistribution
+
+    u = Uniform(1, 2, 3)
+    if type(u) is not Options or tuple(u.options) != (1, 2, 3):
+        return f"Uniform(1, 2, 3) built {type(u).__name__} over {getattr(u, 'options', None)!r}"
+    st = StarredDistribution(TupleDistribution(Range(0, 1), Range(0, 1)), 1)
+    u = Uniform(1, st)
+    if type(u) is not UniformDistribution or len(u.options) != 2 or u.options[0] != 1 or u.options[1] is not st:
+        return f"Uniform(1, *random) built {type(u).__name__} over {getattr(u, 'options', None)!r}"
+    return None
+
+
+def replay_ud(inputs, clause):
+    import random
+
+    from scenic.core.distributions import Range, StarredDistribution, TupleDistribution, UniformDistribution
+    from scenic.core.utils import DefaultIdentityDict
+
+    td = TupleDistribution(Range(5, 6), Range(7, 8))
+    st = StarredDistribution(td, 1)
+    u = UniformDistribution((10, st, 30))
+    seen = set()
+    for seed in range(300):
+        random.seed(seed)
+        v = u.sample()  # an AssertionError inside sampleGiven is reported by the runner
+        seen.add("a" if v == 10 else "d" if v == 30 else "b" if 5 <= v <= 6 else "c" if 7 <= v <= 8 else "?")
+    if seen != {"a", "b", "c", "d"}:
+        return f"UniformDistribution((10, *(Range(5,6), Range(7,8)), 30)) produced only the options {sorted(seen)} in 300 draws"
+    # the selected element of the spliced list
+    for idx, want in enumerate([10, "s0", "s1", 30]):
+        m = DefaultIdentityDict()
+        m[st] = ("s0", "s1")
+        m[u.selector] = idx
+        got = u.sampleGiven(m)
+        if got != want:
+            return f"UniformDistribution.sampleGiven with selector = {idx} returned {got!r}, expected {want!r}"
+    return None
+
+
+def make_replay_clone(cn):
+    def replay(inputs, clause):
+        import scenic.core.distributions as d
+
+        a, b = d.Range(0, 1), d.Range(2, 3)
+        if cn == "Range":
+            o, params = d.Range(a, b), dict(low=a, high=b)
+        elif cn == "Normal":
+            o, params = d.Normal(a, b), dict(mean=a, stddev=b)
+        elif cn == "TruncatedNormal":
+            o, params = d.TruncatedNormal(a, b, -1.5, 2.5), dict(mean=a, stddev=b, low=-1.5, high=2.5)
+        elif cn == "DiscreteRange":
+            o, params = d.DiscreteRange(0, 2, (1, 2, 3), "msg"), dict(low=0, high=2, weights=(1, 2, 3), emptyMessage="msg")
+        elif cn == "UniformDistribution":
+            st = d.StarredDistribution(d.TupleDistribution(a, b), 1)
+            opts = (1, st)
+            o, params = d.UniformDistribution(opts), dict(options=opts)
+        else:
+            table = {a: 1, b: 3}
+            o = d.Options(table)
+            c = o.clone()
+            if c is o or type(c) is not d.Options or c.optWeights != table or any(x is not y for x, y in zip(c.optWeights, table)):
+                return f"Options({{a: 1, b: 3}}).clone() has weights {c.optWeights!r}"
+            o2 = d.Options([a, b])
+            c2 = o2.clone()
+            if c2 is o2 or c2.optWeights is not None or any(x is not y for x, y in zip(c2.options, (a, b))):
+                return "Options([a, b]).clone() does not range over the same options"
+            return None
+        c = o.clone()
+        if c is o or type(c) is not type(o):
+            return f"{cn}.clone() returned {'the same object' if c is o else type(c).__name__}"
+        for k, val in params.items():
+            got = getattr(c, k)
+            if hasattr(val, "_dependencies") or hasattr(got, "_dependencies"):
+                if got is not val:
+                    return f"{cn}.clone().{k} is {got!r}, not the very same parameter object {val!r}"
+            elif got != val:
+                return f"{cn}.clone().{k} = {got!r}, expected the original's {val!r}"
+        return None
+
+    return replay
+
+
+def replay_resample(inputs, clause):
+    import scenic.core.distributions as d
+    from scenic.syntax.veneer import resample
+
+    if resample(3) != 3:
+        return "resample(3) != 3"
+    lo = d.Range(0, 1)
+    r = d.Range(lo, 5)
+    c = resample(r)
+    if c is r or type(c) is not d.Range or c.low is not lo or c.high != 5:
+        return f"resample(Range(lo, 5)) returned {'the same node' if c is r else repr(c)}: not an independent copy over the same parameters"
+    try:
+        resample(r + 1)
+    except TypeError:
+        return None
+    return "resample of a non-primitive distribution did not raise TypeError"
